@@ -67,6 +67,12 @@ func verifEnforcement(loose bool) {
 		}
 		defMode, subMode = newMode, newMode
 	}
+	// the reporting switch of the configuration is independent of the verdict: any value
+	if ndPick("log-flag-arbitrary", 2) == 1 {
+		var key uint32
+		cfg := Config{DefaultMode: uint8(defMode), LogViolations: ndU8("log-violations")}
+		vAssume(m.config.Put(&key, &cfg) == nil)
+	}
 	// optionally one allowed range (loose mode)
 	haveRange := loose && ndPick("range", 2) == 1
 	rangeIP := net.IP(ndBytes("range.ip", 4))
